@@ -682,6 +682,20 @@ func (sl *SignalLayout) decodeSignal(sig Signal, rawValue uint64) *SignalDecodin
 	return nil
 }
 
+// signExtend extends the sign of a raw value of the given size in bits
+// (two's complement) to 64 bits.
+func signExtend(rawValue uint64, size int) uint64 {
+	if size <= 0 || size >= 64 {
+		return rawValue
+	}
+
+	if rawValue&(1<<(size-1)) != 0 {
+		rawValue |= (1<<64 - 1) << size
+	}
+
+	return rawValue
+}
+
 func (sl *SignalLayout) decodeStandardSignal(stdSig *StandardSignal, rawValue uint64) *SignalDecoding {
 	var value any
 	var valueType SignalValueType
@@ -701,22 +715,20 @@ func (sl *SignalLayout) decodeStandardSignal(stdSig *StandardSignal, rawValue ui
 	case SignalTypeKindInteger:
 		if sigType.signed {
 			valueType = SignalValueTypeInt
-
-			if rawValue&(1<<sigType.size-1) != 0 {
-				// extend sign of raw value
-				rawValue |= (1<<64 - 1) << sigType.size
-			}
-
-			value = int64(rawValue)*int64(sigType.scale) - int64(sigType.offset)
+			value = int64(signExtend(rawValue, sigType.size))*int64(sigType.scale) + int64(sigType.offset)
 
 		} else {
 			valueType = SignalValueTypeUint
-			value = rawValue*uint64(sigType.scale) - uint64(sigType.offset)
+			value = rawValue*uint64(sigType.scale) + uint64(sigType.offset)
 		}
 
 	case SignalTypeKindDecimal, SignalTypeKindCustom:
 		valueType = SignalValueTypeFloat
-		value = float64(rawValue)*sigType.scale + sigType.offset
+		if sigType.signed {
+			value = float64(int64(signExtend(rawValue, sigType.size)))*sigType.scale + sigType.offset
+		} else {
+			value = float64(rawValue)*sigType.scale + sigType.offset
+		}
 	}
 
 	return &SignalDecoding{
